@@ -5,8 +5,20 @@ import TabulaModel.Model.PdfDoc
 The lower layers are decided by their own properties: object lookup across revisions,
 object streams and xref kinds (C04 `getObject_refines`, `merge_newest`), filter chains
 (C05), object/content syntax (C06), code → Unicode (C07). Proved here: the layer that is
-new in C01 — flattening the page tree at any depth with inheritable attributes resolved
-to the nearest definer, and splitting content over several streams.
+new in C01 — flattening the page tree with inheritable attributes resolved to the nearest
+definer, and splitting content over several streams.
+
+Two resource bounds of the code (repairs made for C02) limit both statements, and they are
+part of what is proved here:
+* `traversePageNode` refuses a page tree of more than `maxPageTreeDepth = 10000` levels
+  (86b42aa): `traverse` is the walk with its depth counter, `flatten` its specification.
+  `flatten_leaves_nearest` / `page_count_is_leaves` hold for trees of at most 10000 levels;
+  `traverse_beyond_limit` says the deeper ones are refused; `traverse_depth_bounded` that the
+  recursion never goes deeper than the limit, on any tree.
+* `extractTextWithFragments` refuses a page whose decoded content exceeds
+  `maxPageContentBytes = 64 MiB` (36a165b): `joinBounded` is the loop with its check,
+  `joinContents` its specification. `contents_split_bounded`, `joinBounded_within`,
+  `joinBounded_beyond`, `joinBounded_bytes_kept`.
 -/
 namespace Tabula.C01
 open Tabula.PdfDoc
@@ -37,11 +49,171 @@ theorem flattenList_spec {R : Type} (ts : List (PTreeOf R)) (inh : AttrsOf R) :
     rw [flatten_spec t inh, flattenList_spec ts inh]
 end
 
-/-- **flatten_leaves / inherit_nearest**: for a page tree of any depth and fan-out, the page
-list is the left-to-right list of leaves, and each leaf's effective attributes are, key by
-key, those of the nearest ancestor-or-self that defines the key. -/
-theorem flatten_leaves_nearest {R : Type} (t : PTreeOf R) :
-    flatten t {} = (leafPaths t).map (resolvePath {}) := flatten_spec t {}
+/-! ### the depth limit of the walk (`maxPageTreeDepth`, 86b42aa) -/
+
+theorem height_pos {R : Type} (t : PTreeOf R) : 1 ≤ height t := by
+  cases t <;> simp [height]
+
+mutual
+theorem traverse_within {R : Type} (t : PTreeOf R) (dep : Nat) (inh : AttrsOf R)
+    (h : dep + height t ≤ maxPageTreeDepth) : traverse dep t inh = some (flatten t inh) := by
+  cases t with
+  | leaf a =>
+    simp only [height] at h
+    have : ¬ dep ≥ maxPageTreeDepth := by omega
+    simp [traverse, flatten, this]
+  | node a kids =>
+    simp only [height] at h
+    have : ¬ dep ≥ maxPageTreeDepth := by omega
+    simp only [traverse, flatten, this, if_false]
+    exact traverseList_within kids (dep + 1) (a.over inh) (by omega)
+theorem traverseList_within {R : Type} (ts : List (PTreeOf R)) (dep : Nat) (inh : AttrsOf R)
+    (h : dep + heightList ts ≤ maxPageTreeDepth) : traverseList dep ts inh = some (flattenList ts inh) := by
+  cases ts with
+  | nil => simp [traverseList, flattenList]
+  | cons t ts =>
+    simp only [heightList] at h
+    have h1 : dep + height t ≤ maxPageTreeDepth := by omega
+    have h2 : dep + heightList ts ≤ maxPageTreeDepth := by omega
+    simp only [traverseList, flattenList, traverse_within t dep inh h1, traverseList_within ts dep inh h2]
+end
+
+mutual
+theorem traverse_beyond {R : Type} (t : PTreeOf R) (dep : Nat) (inh : AttrsOf R)
+    (h : dep + height t > maxPageTreeDepth) : traverse dep t inh = none := by
+  cases t with
+  | leaf a =>
+    simp only [height] at h
+    have : dep ≥ maxPageTreeDepth := by omega
+    simp [traverse, this]
+  | node a kids =>
+    simp only [height] at h
+    by_cases hd : dep ≥ maxPageTreeDepth
+    · simp [traverse, hd]
+    · simp only [traverse, hd, if_false]
+      exact traverseList_beyond kids (dep + 1) (a.over inh) (by omega) (by omega)
+theorem traverseList_beyond {R : Type} (ts : List (PTreeOf R)) (dep : Nat) (inh : AttrsOf R)
+    (h : dep + heightList ts > maxPageTreeDepth) (hp : 0 < heightList ts) : traverseList dep ts inh = none := by
+  cases ts with
+  | nil => simp [heightList] at hp
+  | cons t ts =>
+    simp only [heightList] at h
+    by_cases h1 : dep + height t > maxPageTreeDepth
+    · simp only [traverseList, traverse_beyond t dep inh h1]
+    · have hpos := height_pos t
+      have h2 : dep + heightList ts > maxPageTreeDepth := by omega
+      have h3 : 0 < heightList ts := by omega
+      simp only [traverseList, traverseList_beyond ts dep inh h2 h3]
+      cases traverse dep t inh <;> rfl
+end
+
+mutual
+theorem traverseT_fst {R : Type} (t : PTreeOf R) (dep : Nat) (inh : AttrsOf R) :
+    (traverseT dep t inh).1 = traverse dep t inh := by
+  cases t with
+  | leaf a => simp [traverseT, traverse]
+  | node a kids =>
+    simp only [traverseT, traverse]
+    split
+    · rfl
+    · exact traverseListT_fst kids (dep + 1) (a.over inh)
+theorem traverseListT_fst {R : Type} (ts : List (PTreeOf R)) (dep : Nat) (inh : AttrsOf R) :
+    (traverseListT dep ts inh).1 = traverseList dep ts inh := by
+  cases ts with
+  | nil => rfl
+  | cons t ts =>
+    have h1 := traverseT_fst t dep inh
+    have h2 := traverseListT_fst ts dep inh
+    simp only [traverseListT, traverseList]
+    rw [← h1, ← h2]
+    rcases traverseT dep t inh with ⟨_ | xs, m⟩
+    · rfl
+    · rcases traverseListT dep ts inh with ⟨_ | ys, m'⟩ <;> rfl
+end
+
+mutual
+theorem traverseT_depth {R : Type} (t : PTreeOf R) (dep : Nat) (inh : AttrsOf R) :
+    (traverseT dep t inh).2 ≤ max dep maxPageTreeDepth ∧ (traverseT dep t inh).2 < dep + height t := by
+  cases t with
+  | leaf a => simp [traverseT, height]; omega
+  | node a kids =>
+    simp only [traverseT, height]
+    split
+    · simp; omega
+    · have := traverseListT_depth kids (dep + 1) (a.over inh)
+      simp only
+      omega
+theorem traverseListT_depth {R : Type} (ts : List (PTreeOf R)) (dep : Nat) (inh : AttrsOf R) :
+    (traverseListT dep ts inh).2 ≤ max dep maxPageTreeDepth ∧
+      (traverseListT dep ts inh).2 ≤ dep + heightList ts - 1 := by
+  cases ts with
+  | nil => simp [traverseListT]
+  | cons t ts =>
+    have h1 := traverseT_depth t dep inh
+    have h2 := traverseListT_depth ts dep inh
+    simp only [traverseListT, heightList]
+    generalize traverseT dep t inh = r at h1 ⊢
+    generalize traverseListT dep ts inh = r' at h2 ⊢
+    rcases r with ⟨_ | xs, m⟩
+    · simp only at h1 ⊢; omega
+    · rcases r' with ⟨_ | ys, m'⟩ <;> simp only at h1 h2 ⊢ <;> omega
+end
+
+/-- the walk is its specification `flatten` on a tree of at most 10000 levels and an error on a
+deeper one — whatever the deep part consists of and wherever in the tree it is -/
+theorem traverse_eq {R : Type} (t : PTreeOf R) (inh : AttrsOf R) :
+    traverse 0 t inh = if height t ≤ maxPageTreeDepth then some (flatten t inh) else none := by
+  split
+  · exact traverse_within t 0 inh (by omega)
+  · exact traverse_beyond t 0 inh (by omega)
+
+/-- **flatten_leaves / inherit_nearest**: for a page tree of any fan-out and of at most
+`maxPageTreeDepth` = 10000 levels, the page list is the left-to-right list of leaves, and each
+leaf's effective attributes are, key by key, those of the nearest ancestor-or-self that
+defines the key.
+
+Restated (was: for every tree, about `flatten`): since 86b42aa `traversePageNode` counts its
+depth and returns an error at `t.depth >= 10000`, so the statement about the code's walk
+(`traverse`) needs `height t ≤ 10000`; beyond that see `traverse_beyond_limit`. The
+unbounded statement still holds of the specification function (`flatten_spec`). -/
+theorem flatten_leaves_nearest {R : Type} (t : PTreeOf R) (h : height t ≤ maxPageTreeDepth) :
+    traverse 0 t {} = some ((leafPaths t).map (resolvePath {})) := by
+  rw [traverse_within t 0 {} (by omega), flatten_spec t {}]
+
+/-- **beyond the limit the code answers with an error**: a tree with more than 10000 levels —
+be it one long branch among many short ones — is not traversed at all (`loadPages` drops the
+pages collected before the deep branch was met) -/
+theorem traverse_beyond_limit {R : Type} (t : PTreeOf R) (inh : AttrsOf R) (h : height t > maxPageTreeDepth) :
+    traverse 0 t inh = none := traverse_beyond t 0 inh (by omega)
+
+/-- **bounded work**: on EVERY tree the recursion of the walk is entered with a depth of at
+most 10000 (`traverseT` reports the largest `t.depth` a call was entered with), and with no
+more than the tree has levels: at most `min (height t) 10001` nested calls. -/
+theorem traverse_depth_bounded {R : Type} (t : PTreeOf R) (inh : AttrsOf R) :
+    (traverseT 0 t inh).1 = traverse 0 t inh ∧
+    (traverseT 0 t inh).2 ≤ maxPageTreeDepth ∧ (traverseT 0 t inh).2 < height t := by
+  have := traverseT_depth t 0 inh
+  exact ⟨traverseT_fst t 0 inh, by omega, by omega⟩
+
+/-- a page tree that is a list: `n` `/Pages` nodes with one kid each above one leaf
+(`n + 1` levels) -/
+def chain {R : Type} : Nat → PTreeOf R
+  | 0 => .leaf {}
+  | n + 1 => .node {} [chain n]
+
+theorem height_chain {R : Type} (n : Nat) : height (chain n : PTreeOf R) = n + 1 := by
+  induction n with
+  | zero => rfl
+  | succ n ih => simp [chain, height, heightList, ih]
+
+/-- the edge: 10000 levels are traversed … -/
+example : traverse 0 (chain 9999 : PTree) {} = some (flatten (chain 9999) {}) :=
+  traverse_within _ 0 {} (by rw [height_chain]; decide)
+/-- … 10001 levels are not -/
+example : traverse 0 (chain 10000 : PTree) {} = none :=
+  traverse_beyond_limit _ {} (by rw [height_chain]; decide)
+/-- the hypothesis of `flatten_leaves_nearest` at a small tree, decided by evaluation -/
+example : height (.node {} [.leaf {}, .node {} [.leaf {}]] : PTree) ≤ maxPageTreeDepth := by decide
 
 mutual
 theorem leafPaths_length {R : Type} (t : PTreeOf R) : (leafPaths t).length = countLeaves t := by
@@ -55,10 +227,28 @@ theorem leafPathsList_length {R : Type} (ts : List (PTreeOf R)) :
   | cons t ts => simp [leafPathsList, countLeavesList, leafPaths_length t, leafPathsList_length ts]
 end
 
-/-- **page count = number of page leaves** -/
-theorem page_count_is_leaves {R : Type} (t : PTreeOf R) (inh : AttrsOf R) :
+/-- the specification function lists one entry per leaf (any tree) -/
+theorem flatten_length {R : Type} (t : PTreeOf R) (inh : AttrsOf R) :
     (flatten t inh).length = countLeaves t := by
   rw [flatten_spec, List.length_map, leafPaths_length]
+
+/-- **page count = number of page leaves**, whenever the walk delivers pages at all.
+
+Restated (was: `(flatten t inh).length = countLeaves t` for every tree): the walk of the code
+delivers no page list for a tree of more than 10000 levels (`traverse_beyond_limit`), so the
+count is that of the leaves exactly when `height t ≤ 10000` — which is the case whenever the
+walk succeeds. -/
+theorem page_count_is_leaves {R : Type} (t : PTreeOf R) (inh : AttrsOf R) (ps : List (AttrsOf R))
+    (h : traverse 0 t inh = some ps) : ps.length = countLeaves t ∧ height t ≤ maxPageTreeDepth := by
+  rw [traverse_eq] at h
+  split at h
+  · next hh =>
+    cases h
+    exact ⟨flatten_length t inh, hh⟩
+  · cases h
+
+/-- satisfiability: a two-level tree with two leaves -/
+example : traverse 0 (.node {} [.leaf {}, .leaf {}] : PTree) {} = some [{}, {}] := by decide
 
 /-- a key's nearest definer decides: the deepest dictionary on the path that has `/MediaBox`
 supplies it, whatever lies above -/
@@ -131,8 +321,163 @@ theorem contents_split (parts : List (List Nat)) :
       simp only [List.append_assoc, List.singleton_append] at h ⊢
       rw [h, ih, wordsAux_trailing_ws]
 
+/-! ### the size limit of a page's content (`maxPageContentBytes`, 36a165b) -/
+
+theorem joinPiece_length (p : List Nat) :
+    (joinPiece p).length = if p.length = 0 then 0 else p.length + 1 := by
+  cases p <;> simp [joinPiece]
+
+theorem joinContents_cons (p : List Nat) (ps : List (List Nat)) :
+    joinContents (p :: ps) = joinPiece p ++ joinContents ps := by
+  simp [joinContents, joinPiece]
+
+/-- the loop is the unbounded join guarded by the length-only loop -/
+theorem joinLoop_eq (ps : List (List Nat)) (n : Nat) :
+    joinLoop n ps = if fitsLoop n (ps.map List.length) then some (joinContents ps) else none := by
+  induction ps generalizing n with
+  | nil => simp [joinLoop, fitsLoop, joinContents]
+  | cons p ps ih =>
+    simp only [joinLoop, List.map_cons, fitsLoop]
+    by_cases h : n + p.length > maxPageContentBytes
+    · simp [h]
+    · simp only [h, if_false]
+      rw [ih, joinPiece_length, joinContents_cons]
+      cases fitsLoop (n + if p.length = 0 then 0 else p.length + 1) (List.map List.length ps) <;> rfl
+
+theorem fitsLoop_of_le (ps : List (List Nat)) (n : Nat)
+    (h : n + (joinContents ps).length ≤ maxPageContentBytes) : fitsLoop n (ps.map List.length) = true := by
+  induction ps generalizing n with
+  | nil => rfl
+  | cons p ps ih =>
+    rw [joinContents_cons, List.length_append, joinPiece_length] at h
+    simp only [List.map_cons, fitsLoop]
+    have h1 : ¬ n + p.length > maxPageContentBytes := by split at h <;> omega
+    simp only [h1, if_false]
+    apply ih
+    split at h <;> simp_all <;> omega
+
+/-- when the loop lets the parts pass, `allData` ends with at most one byte over the limit -/
+theorem fitsLoop_bound (ps : List (List Nat)) (n : Nat) (h : fitsLoop n (ps.map List.length) = true) :
+    n + (joinContents ps).length ≤ max n (maxPageContentBytes + 1) := by
+  induction ps generalizing n with
+  | nil => simp [joinContents]; omega
+  | cons p ps ih =>
+    simp only [List.map_cons, fitsLoop] at h
+    by_cases h1 : n + p.length > maxPageContentBytes
+    · simp [h1] at h
+    · simp only [h1, if_false, Bool.false_eq_true] at h
+      have := ih _ h
+      rw [joinContents_cons, List.length_append, joinPiece_length]
+      split at this <;> split <;> omega
+
+/-- **contents_split for the code's join**: whenever the join of `extractTextWithFragments`
+delivers a content at all, it is the specification join, so its words are the words of the
+parts in order.
+
+`contents_split` above is kept verbatim: it is about `joinContents`, which since 36a165b is the
+specification of the join, no longer the code. The code's join `joinBounded` refuses a page
+whose parts (with the separators) exceed 64 MiB. -/
+theorem contents_split_bounded (parts : List (List Nat)) (r : List Nat) (h : joinBounded parts = some r) :
+    r = joinContents parts ∧ words r = parts.flatMap words := by
+  unfold joinBounded at h
+  rw [joinLoop_eq] at h
+  split at h
+  · cases h
+    exact ⟨rfl, contents_split parts⟩
+  · cases h
+
+/-- **within the limit nothing changes**: parts whose join (separators included) has at most
+`maxPageContentBytes` bytes are joined as before -/
+theorem joinBounded_within (parts : List (List Nat)) (h : (joinContents parts).length ≤ maxPageContentBytes) :
+    joinBounded parts = some (joinContents parts) := by
+  unfold joinBounded
+  rw [joinLoop_eq, fitsLoop_of_le parts 0 (by omega)]
+  rfl
+
+/-- **beyond the limit the code answers with an error**: parts whose join would have more than
+`maxPageContentBytes + 1` bytes are refused. (A join of exactly `maxPageContentBytes + 1`
+bytes — the limit reached exactly by the last non-empty part, plus its separator — passes
+unless another, empty, part follows; `fitsLoop` decides every case, see `joinLoop_eq`.) -/
+theorem joinBounded_beyond (parts : List (List Nat)) (h : (joinContents parts).length > maxPageContentBytes + 1) :
+    joinBounded parts = none := by
+  unfold joinBounded
+  rw [joinLoop_eq]
+  cases hf : fitsLoop 0 (parts.map List.length) with
+  | false => rfl
+  | true =>
+    have := fitsLoop_bound parts 0 hf
+    omega
+
+/-- **bounded work**: for EVERY list of parts, what the join keeps (`allData`) is at most
+`maxPageContentBytes + 1` bytes — the parts' sizes may be anything -/
+theorem joinBounded_bytes_kept (parts : List (List Nat)) (r : List Nat) (h : joinBounded parts = some r) :
+    r.length ≤ maxPageContentBytes + 1 := by
+  unfold joinBounded at h
+  rw [joinLoop_eq] at h
+  cases hf : fitsLoop 0 (parts.map List.length) with
+  | false => rw [hf] at h; cases h
+  | true =>
+    rw [hf] at h
+    cases h
+    have := fitsLoop_bound parts 0 hf
+    omega
+
+/-- joining the concatenation of the parts as ONE stream never takes more bytes than joining
+the parts (each non-empty part brings a separator of its own) -/
+theorem joinContents_flat_le (ps : List (List Nat)) :
+    (joinContents [ps.flatMap id]).length ≤ (joinContents ps).length := by
+  have h1 : ∀ x : List Nat, joinContents [x] = joinPiece x := by
+    intro x; simp [joinContents, joinPiece]
+  rw [h1]
+  induction ps with
+  | nil => simp [joinPiece, joinContents]
+  | cons p ps ih =>
+    rw [joinContents_cons, List.length_append, List.flatMap_cons]
+    rw [joinPiece_length] at ih ⊢
+    rw [joinPiece_length]
+    simp only [id, List.length_append]
+    split at ih <;> split <;> split <;> omega
+/-- one stream: exactly the streams of at most 64 MiB pass -/
+theorem joinBounded_single (p : List Nat) :
+    joinBounded [p] = if p.length ≤ maxPageContentBytes then some (joinPiece p) else none := by
+  unfold joinBounded
+  by_cases h : p.length ≤ maxPageContentBytes
+  · have : ¬ (0 + p.length > maxPageContentBytes) := by omega
+    simp [joinLoop, this, h]
+  · have : 0 + p.length > maxPageContentBytes := by omega
+    simp [joinLoop, this, h]
+
+/-- the edge: a content stream of exactly 64 MiB is read … -/
+example : joinBounded [List.replicate maxPageContentBytes 32] =
+    some (joinPiece (List.replicate maxPageContentBytes 32)) := by
+  rw [joinBounded_single, List.length_replicate, if_pos (Nat.le_refl _)]
+/-- … one byte more is refused -/
+example : joinBounded [List.replicate (maxPageContentBytes + 1) 32] = none := by
+  rw [joinBounded_single, List.length_replicate, if_neg (by omega)]
+/-- the same bytes split over two streams carry one more separator: the two-stream split of a
+stream that just fits is refused (`allData` would have 64 MiB + 2 bytes) -/
+example : joinBounded [List.replicate (maxPageContentBytes - 1) 32, [32]] = none := by
+  unfold joinBounded
+  rw [joinLoop_eq]
+  simp only [List.map_cons, List.map_nil, List.length_replicate, List.length_cons, List.length_nil]
+  have : fitsLoop 0 [maxPageContentBytes - 1, 0 + 1] = false := by decide
+  rw [this]
+  rfl
+/-- an empty stream after a stream of exactly 64 MiB is refused too (the check precedes the
+`len(data) > 0` test, and `allData` already holds 64 MiB + 1 bytes) -/
+example : joinBounded [List.replicate maxPageContentBytes 32, []] = none := by
+  unfold joinBounded
+  rw [joinLoop_eq]
+  simp only [List.map_cons, List.map_nil, List.length_replicate, List.length_nil]
+  have : fitsLoop 0 [maxPageContentBytes, 0] = false := by decide
+  rw [this]
+  rfl
+/-- the length-only loop on small numbers, decided by evaluation -/
+example : fitsLoop 0 [3, 0, 5] = true ∧ fitsLoop 67108860 [3, 1] = false ∧ fitsLoop 0 [67108864, 0] = false := by
+  decide
+
 /-- without a separator the property fails: `… Tj` + `ET` reads as the single word `TjET`
-(the pinned tree's behaviour before the repair) -/
+(the pinned tree's behaviour before the repair 9d65264) -/
 theorem concat_without_separator_counterexample :
     words ([84, 106] ++ [69, 84]) ≠ words [84, 106] ++ words [69, 84] := by decide
 
